@@ -2054,7 +2054,10 @@ func (r *Runner) transferCapture(capnum, uncapnum, start, end int) {
 		end = start
 		start = end2
 	} else if end <= start2 {
-		start = start2
+		// the mirror image of the case above: the interval between the two.
+		// (start = start2 alone would leave end before start, a negative length
+		// that the capture arrays would read as a balancing back-pointer)
+		start, end = end, start2
 	} else {
 		if end > end2 {
 			end = end2
